@@ -376,6 +376,11 @@ def run(ctx, out, tier):
     m = meta(len(S), n_auto, n_tab, by_class)
     if tier == "thorough":
         m["release_profile"] = release_profile_census(ctx, S)
+    # indices that designate a block in another task (the discharge of `attributes["check-lua"]` / `["check-ai"]`
+    # in the tasks rests on them)
+    from rules import asyncval
+    for _nm in ("check-lua", "check-ai"):
+        asyncval.check_index_alignment(ctx, out, "C04.index.%s" % _nm, _nm)
     return m
 
 
